@@ -121,8 +121,9 @@ def body(case):
     if cells[0] < 1 or cells[1] < 1:
         return {"undef": True, "cls": ["undef-index-precondition"]}
     radius, noise = case["radius"], case["noise"]
-    obs = [tuple(p) for p in case["obs"]]
-    scale = max([1.0] + [abs(c) for g in geoms for p in g for c in p] + [abs(c) for p in obs for c in p[:2]])
+    tracks_obs = [[tuple(p) for p in case["obs"]]] + [[tuple(p) for p in t] for t in case.get("more", [])]
+    allobs = [p for t in tracks_obs for p in t]
+    scale = max([1.0] + [abs(c) for g in geoms for p in g for c in p] + [abs(c) for p in allobs for c in p[:2]])
     tol_on = 1e-6 * scale
     tol_r = 1e-7 * scale
 
@@ -130,25 +131,62 @@ def body(case):
     res = None if case["res"] is None else [case["res"][0], case["res"][1]]
     net.spatial_index = SpatialIndex(net, resolution=res, margin=case["margin"], verbose=False)
     net.prepare(verbose=False)
-    track = gen.make_track(obs)
-    before = _snapshot(track)
-    arg = TrackCollection([track]) if case.get("coll") else track
+    tracks = [gen.make_track(t) for t in tracks_obs]
+    befores = [_snapshot(t) for t in tracks]
     vx = _vertical_xs(case)
-    aligned = [k for k, p in enumerate(obs) if p[0] in vx]
+    aligned_all = [p for p in allobs if p[0] in vx]
     try:
-        mapOnNetwork(arg, net, gps_noise=noise, search_radius=radius)
+        if case.get("coll") or len(tracks) > 1 and case.get("call") != "one-by-one":
+            mapOnNetwork(TrackCollection(list(tracks)), net, gps_noise=noise, search_radius=radius)
+        else:
+            for t in tracks:                      # repeated single-track calls on the same prepared network
+                mapOnNetwork(t, net, gps_noise=noise, search_radius=radius)
     except ZeroDivisionError as e:
-        if exc_key(e) == "exc:ZeroDivisionError:proj_segment" and aligned:
+        if exc_key(e) == "exc:ZeroDivisionError:proj_segment" and aligned_all:
             raise Violation(KF_VERTICAL, "ZeroDivisionError in proj_segment; observation(s) %s have the x of an "
-                            "exactly vertical edge segment (x in %s)" % (aligned, sorted(vx)))
+                            "exactly vertical edge segment (x in %s)" % (aligned_all[:4], sorted(vx)))
         raise
     except OverflowError as e:
         # exp((dgeom - dtopo) / 10) in the transition model: dtopo >= -1, dgeom <= gap + 2 * radius
-        gap = max([0.0] + [math.hypot(obs[k + 1][0] - obs[k][0], obs[k + 1][1] - obs[k][1]) for k in range(len(obs) - 1)])
+        gap = max([0.0] + [math.hypot(t[k + 1][0] - t[k][0], t[k + 1][1] - t[k][1]) for t in tracks_obs for k in range(len(t) - 1)])
         if exc_key(e) == "exc:OverflowError:tst_log" and gap + 2 * radius > 7000:
             raise Violation(K_OVERFLOW, "OverflowError in the transition model; consecutive fixes %.0f apart" % gap)
         raise
 
+    matched_edges, n_un, cls = set(), 0, set()
+    for ti, (track, obs, before) in enumerate(zip(tracks, tracks_obs, befores)):
+        try:
+            me, un = _judge_track(case, track, obs, before, geoms, (x0, x1, y0, y1), radius, scale, tol_on, tol_r, vx, cls)
+        except Violation as v:
+            if len(tracks) == 1:
+                raise
+            raise Violation(v.key, "track %d of %d (%s): %s" % (ti, len(tracks), case.get("call"), v.msg))
+        matched_edges |= me
+        n_un += un
+    if len(tracks) > 1:
+        cls.add("tracks=%d-%s" % (len(tracks), "collection" if case.get("call") != "one-by-one" else "one-by-one"))
+    if any(c != round(c * 16) / 16 for p in case["nodes"] for c in p):
+        cls.add("net-decimal-coordinates")
+    cls.add("res-none" if case["res"] is None else
+            "res-square" if case["res"][0] == case["res"][1] else "res-rect")
+    if vx:
+        cls.add("net-has-vertical-segment")
+    if aligned_all:
+        cls.add("some-obs-aligned-with-vertical(no-crash)")
+    if any(len(g) > 2 for g in geoms):
+        cls.add("net-multi-vertex-edge")
+    if len(matched_edges) >= 2:
+        cls.add("matched->=2-edges")
+    if not matched_edges:
+        cls.add("nothing-matched")
+    nt = len(matched_edges) >= 2 and n_un >= 1
+    return {"nt": nt, "cls": sorted(cls)}
+
+
+def _judge_track(case, track, obs, before, geoms, extent, radius, scale, tol_on, tol_r, vx, cls):
+    edges = case["edges"]
+    x0, x1, y0, y1 = extent
+    aligned = [k for k, p in enumerate(obs) if p[0] in vx]
     # -- the track keeps its observations ---------------------------------------------------------
     after = _snapshot(track)
     if len(after) != len(before):
@@ -162,7 +200,7 @@ def body(case):
             raise Violation("track-timestamp-changed", "observation %d: %s -> %s ms" % (k, b[4], a[4]))
 
     # -- every observation: unmatched, or a point of an edge within the radius ----------------------
-    matched_edges, n_un, cls = set(), 0, set()
+    matched_edges, n_un = set(), 0
     for k, o in enumerate(obs):
         ox, oy = o[0], o[1]
         s = track["hmm_inference", k]
@@ -225,22 +263,7 @@ def body(case):
             cls.add("matched-obs-exactly-on-edge")
         if k in aligned:
             cls.add("matched-obs-aligned-with-vertical")
-    if any(c != round(c * 16) / 16 for p in case["nodes"] for c in p):
-        cls.add("net-decimal-coordinates")
-    cls.add("res-none" if case["res"] is None else
-            "res-square" if case["res"][0] == case["res"][1] else "res-rect")
-    if vx:
-        cls.add("net-has-vertical-segment")
-    if aligned:
-        cls.add("some-obs-aligned-with-vertical(no-crash)")
-    if any(len(g) > 2 for g in geoms):
-        cls.add("net-multi-vertex-edge")
-    if len(matched_edges) >= 2:
-        cls.add("matched->=2-edges")
-    if not matched_edges:
-        cls.add("nothing-matched")
-    nt = len(matched_edges) >= 2 and n_un >= 1
-    return {"nt": nt, "cls": sorted(cls)}
+    return matched_edges, n_un
 
 
 # ------------------------------------------------------------------------------------------------
@@ -350,56 +373,63 @@ def _case(draw):
         else:
             case["res"] = [ax / (n1 + f1), ay / (n2 + f2)]
     # ---- observations -------------------------------------------------------------------------------
-    nobs = draw(st.one_of(st.integers(1, 8), st.integers(4, 8)))
     vx = _vertical_xs(case)
-    obs = []
-    for _ in range(nobs):
-        e = edges[draw(st.integers(0, len(edges) - 1))]
-        pts = _edge_pts(case, e)
-        j = draw(st.integers(0, len(pts) - 2))
-        (ax_, ay_), (bx, by) = pts[j], pts[j + 1]
-        t = draw(st.sampled_from([0.0, 1.0, 0.5, 0.25, 0.125, 0.75, 0.3, 0.9]))
-        bxp, byp = ax_ + t * (bx - ax_), ay_ + t * (by - ay_)
-        L = math.hypot(bx - ax_, by - ay_)
-        ux, uy = ((bx - ax_) / L, (by - ay_) / L) if L > 0 else (1.0, 0.0)
-        kind = draw(st.sampled_from(["on", "perp", "perp", "perp", "along", "axis", "axis", "outside", "free", "veryfar"]))
-        f = draw(st.sampled_from(_FACT))
-        sg = draw(st.sampled_from([-1.0, 1.0]))
-        if kind == "on":
-            p = [bxp, byp]
-        elif kind == "perp":
-            p = [bxp - sg * uy * f * r, byp + sg * ux * f * r]
-        elif kind == "along":
-            base = (bx, by) if sg > 0 else (ax_, ay_)
-            p = [base[0] + sg * ux * f * r, base[1] + sg * uy * f * r]
-        elif kind == "axis":
-            if draw(st.booleans()):
-                p = [bxp + sg * f * r, byp]
+
+    def one_track(nobs):
+        obs = []
+        for _ in range(nobs):
+            e = edges[draw(st.integers(0, len(edges) - 1))]
+            pts = _edge_pts(case, e)
+            j = draw(st.integers(0, len(pts) - 2))
+            (ax_, ay_), (bx, by) = pts[j], pts[j + 1]
+            t = draw(st.sampled_from([0.0, 1.0, 0.5, 0.25, 0.125, 0.75, 0.3, 0.9]))
+            bxp, byp = ax_ + t * (bx - ax_), ay_ + t * (by - ay_)
+            L = math.hypot(bx - ax_, by - ay_)
+            ux, uy = ((bx - ax_) / L, (by - ay_) / L) if L > 0 else (1.0, 0.0)
+            kind = draw(st.sampled_from(["on", "perp", "perp", "perp", "along", "axis", "axis", "outside", "free", "veryfar"]))
+            f = draw(st.sampled_from(_FACT))
+            sg = draw(st.sampled_from([-1.0, 1.0]))
+            if kind == "on":
+                p = [bxp, byp]
+            elif kind == "perp":
+                p = [bxp - sg * uy * f * r, byp + sg * ux * f * r]
+            elif kind == "along":
+                base = (bx, by) if sg > 0 else (ax_, ay_)
+                p = [base[0] + sg * ux * f * r, base[1] + sg * uy * f * r]
+            elif kind == "axis":
+                if draw(st.booleans()):
+                    p = [bxp + sg * f * r, byp]
+                else:
+                    p = [bxp, byp + sg * f * r]
+            elif kind == "outside":
+                g = draw(st.sampled_from([0.0, 0.01, 0.5, 3.0]))
+                cx = draw(st.sampled_from([x0 - g * r - Q, x1 + g * r + Q, x0, x1, bxp]))
+                cy = draw(st.sampled_from([y0 - g * r - Q, y1 + g * r + Q, y0, y1, byp]))
+                p = [cx, cy]
+            elif kind == "veryfar":
+                if draw(st.integers(0, 3)) == 0:
+                    p = [bxp + sg * draw(st.sampled_from([3000.0, 8000.0, 20000.0])), byp]
+                else:
+                    p = [bxp + sg * 40.0 * r, byp - sg * 40.0 * r]
             else:
-                p = [bxp, byp + sg * f * r]
-        elif kind == "outside":
-            g = draw(st.sampled_from([0.0, 0.01, 0.5, 3.0]))
-            cx = draw(st.sampled_from([x0 - g * r - Q, x1 + g * r + Q, x0, x1, bxp]))
-            cy = draw(st.sampled_from([y0 - g * r - Q, y1 + g * r + Q, y0, y1, byp]))
-            p = [cx, cy]
-        elif kind == "veryfar":
-            if draw(st.integers(0, 3)) == 0:
-                p = [bxp + sg * draw(st.sampled_from([3000.0, 8000.0, 20000.0])), byp]
-            else:
-                p = [bxp + sg * 40.0 * r, byp - sg * 40.0 * r]
-        else:
-            p = [draw(_lat(x0 - W / 4, x1 + W / 4)), draw(_lat(y0 - W / 4, y1 + W / 4))]
-        # exact alignment with a vertical segment (the recorded proj_segment crash) only sometimes
-        if p[0] in vx and draw(st.integers(0, 3)) != 0:
-            d = draw(st.sampled_from([2.0 ** -7, -2.0 ** -7, 2.0 ** -20]))
-            for _try in range(4):
-                if p[0] + d not in vx and p[0] + d != p[0]:
-                    break
-                d *= 3
-            p[0] = p[0] + d
-        z = draw(st.sampled_from([0.0, 0.0, 0.0, 0.0, 50.0, -300.0]))
-        obs.append([float(p[0]), float(p[1])] + ([z] if z else []))
-    case["obs"] = obs
+                p = [draw(_lat(x0 - W / 4, x1 + W / 4)), draw(_lat(y0 - W / 4, y1 + W / 4))]
+            # exact alignment with a vertical segment (the recorded proj_segment crash) only sometimes
+            if p[0] in vx and draw(st.integers(0, 3)) != 0:
+                d = draw(st.sampled_from([2.0 ** -7, -2.0 ** -7, 2.0 ** -20]))
+                for _try in range(4):
+                    if p[0] + d not in vx and p[0] + d != p[0]:
+                        break
+                    d *= 3
+                p[0] = p[0] + d
+            z = draw(st.sampled_from([0.0, 0.0, 0.0, 0.0, 50.0, -300.0]))
+            obs.append([float(p[0]), float(p[1])] + ([z] if z else []))
+        return obs
+
+    case["obs"] = one_track(draw(st.one_of(st.integers(1, 8), st.integers(4, 8))))
+    # several tracks matched on the same prepared network: in one call (TrackCollection) or one call per track
+    if draw(st.integers(0, 3)) == 0:
+        case["more"] = [one_track(draw(st.integers(1, 6))) for _ in range(draw(st.integers(1, 2)))]
+        case["call"] = draw(st.sampled_from(["collection", "collection", "one-by-one"]))
     return case
 
 
